@@ -406,7 +406,9 @@ class DictGen:
             if not isinstance(lookup(p, o)[1], list):
                 set_path(o, p, r.choice(TEMPLATES))
         elif m == "section_replace" and self.cfg.get("shape_change"):
-            k = r.choice(["S", "A", "B"])
+            # (only the section key changes shape: a dictionary under a scalar key that templates stringify would
+            #  re-enter the resolver through its braces — the C09 matter of DESIGN 9.3)
+            k = "S"
             if isinstance(o.get(k), dict):
                 o[k] = r.choice(SCALARS)
             else:
